@@ -82,9 +82,9 @@ CHECKS = {
    note="Liveness as bounded-horizon safety with explicit bounds: (2*receiptTimeout+7)*(diameter+2) announce intervals, plus 510 intervals when the post-fault topology contains a cycle (IEEE 1588 count-to-infinity of a lost grandmaster's data set without path trace). Slave-only nodes are generated with clockClass 255 and a priority1 behind all master-capable nodes (a slave-only instance whose own data set wins the comparison never synchronises; the daemon does not enforce class 255 - noted in DESIGN.md).",
    technique="property-based testing over generated topologies/rankings/schedules/faults with a discrete-event simulator and graph-based oracle + generated networks of real daemon processes under the same oracle"),
  "C02": dict(level="exploration", design="DESIGN.md §4 C02",
-   text="Closed-loop simulation with the real slave port and the real KalmanFilter steering a simulated clock whose readings produce all of the slave's timestamps (so corrections feed back), against a synthetic one-step/two-step grandmaster; generated initial offset (+-10 s), oscillator error (+-150 ppm), symmetric delay (1-400 us), jitter (0-20 us), sync/delay intervals (2^-3..2^1 s), message interleavings (Follow_Up before Sync, transmit timestamps prompt / late / mixed), grandmaster present from the start or appearing only after the port has become master through its receipt timeout. Oracle: |true offset| <= 0.5 us + 3 J from some time <= 120 s + 1000 x max(sync, delay interval) until the horizon, no step after that time, all frequency commands finite and within +-400 ppm.",
+   text="Closed-loop simulation with the real slave port and the real KalmanFilter steering a simulated clock whose readings produce all of the slave's timestamps (so corrections feed back), against a synthetic one-step/two-step grandmaster; generated initial offset (+-10 s), oscillator error (+-150 ppm), symmetric delay (1-400 us), jitter (0-20 us), sync/delay intervals (2^-3..2^1 s), message interleavings (Follow_Up before Sync, transmit timestamps prompt / late / mixed), grandmaster present from the start or appearing only after the port has become master through its receipt timeout. Oracle: |true offset| <= 0.5 us + 3 J from some time <= 120 s + 1000 x max(sync, delay interval) until the horizon, no step after that time, all frequency commands finite and within +-400 ppm. Plus an end-to-end part: the real daemon process slaved in real time to a grandmaster played by the harness with a generated clock offset and drift (kernel timestamps both ways); its true offset is read off the Sync/Follow_Up its other, master port emits and must be small over the last quarter of the run.",
    note="The two constants are a stated tolerance calibrated once on the unchanged tree (10^4 runs: worst settle time 0.40 of the bound, worst residual 0.17 of the bound); degradations smaller than that head-room are not detected. No wall clock is involved.",
-   technique="property-based testing of a closed-loop discrete-event simulation with a bounded-convergence oracle"),
+   technique="property-based testing of a closed-loop discrete-event simulation with a bounded-convergence oracle + generated real-time closed loops against the real daemon process"),
 }
 NA_REASON = "check not built yet in this round (design in DESIGN.md §4); will be claimed once its check exists"
 
